@@ -16,12 +16,16 @@ import (
 	"github.com/bluenviron/gohlslib/v2/internal/zzverif/vh"
 	"github.com/bluenviron/gohlslib/v2/internal/zzverif/vsched"
 	"github.com/bluenviron/mediacommon/v2/pkg/formats/fmp4"
+	"github.com/bluenviron/mediacommon/v2/pkg/formats/fmp4/seekablebuffer"
 )
 
 func init() {
 	verifProps["C08"] = vh.Prop{
 		List: func(tier string) []vh.Scenario { return msListScenarios(c08Scens(tier)) },
-		Run:  func(c *vh.Ctx) { runMuxSched(c, c08Scens(c.Tier), c08Check) },
+		Run: func(c *vh.Ctx) {
+			respSlowClient = true // other threads may run between a handler's WriteHeader and its Write
+			runMuxSched(c, c08Scens(c.Tier), c08Check)
+		},
 	}
 }
 
@@ -57,6 +61,13 @@ func c08Scens(tier string) []msScen {
 			{cfgLLAV, []int{9}},
 			{cfgFMP4Disk, []int{17}}, // the next rotation slides the window and removes a file
 			{cfgTSDisk, []int{17}},
+		}
+	}
+	// init regeneration under way: the writer switches the parameter set on a GOP boundary and completes the first
+	// segment encoded with the new set (frame 12) while a reader has an init request in flight
+	for _, cfg := range []muxCfg{cfgFMP4, cfgFMP4Disk, cfgLLp} {
+		for _, rs := range [][]string{{"INIT", "OLD"}, {"PL", "FOLLOWINIT"}, {"INIT", "INIT"}} {
+			out = append(out, msScen{Prop: "C08", Cfg: cfg, Warm: 8, Writes: 5, Params: 1, Reqs: [][]string{rs}, Bound: bound, Shards: 1})
 		}
 	}
 	for _, b := range bases {
@@ -239,10 +250,27 @@ func c08Check(st *msState, s *vsched.Sched, tr *vsched.Trace) (string, []vsched.
 			}
 		default:
 			key := canon(path)
+			if strings.HasSuffix(path, "_init.mp4") && st.sc.Params != 0 {
+				// the init segment keeps its URI and legitimately changes once the first segment encoded with the new
+				// parameter set is complete (C02): only its integrity is checked below
+				key = fmt.Sprintf("%s#%x", key, l.Body)
+			}
 			if old, ok := bodies[key]; ok && !bytes.Equal(old, l.Body) {
 				add("media-bytes-changed", fmt.Sprintf("%s returned %d bytes to one request and %d different bytes to another", key, len(old), len(l.Body)))
 			}
 			bodies[key] = l.Body
+			if strings.HasSuffix(path, "_init.mp4") {
+				// an init segment is one whole fMP4 header: it decodes, and nothing follows it
+				var in fmp4.Init
+				if err := in.Unmarshal(bytes.NewReader(l.Body)); err != nil || len(in.Tracks) == 0 {
+					add("init-undecodable", fmt.Sprintf("%s (%d bytes) served to %s cannot be decoded: %v", key, len(l.Body), l.Thread, err))
+				} else {
+					var w seekablebuffer.Buffer
+					if err := in.Marshal(&w); err == nil && len(w.Bytes()) != len(l.Body) {
+						add("init-torn", fmt.Sprintf("%s served to %s has %d bytes, the header it decodes to has %d: the response mixes two versions of the init segment", key, l.Thread, len(l.Body), len(w.Bytes())))
+					}
+				}
+			}
 			if strings.HasSuffix(path, ".mp4") && !strings.Contains(path, "_init") {
 				var parts fmp4.Parts
 				if err := parts.Unmarshal(l.Body); err != nil || len(parts) == 0 {
